@@ -59,6 +59,9 @@ RULE = (
     "and >=1 context switch was taken between two lines of Zone.writer(); distinct by SHA-1 "
     "of the case"
 )
+RULE += (
+    " Round 9 added: every other writer thread rewrites one long-lived Rdataset object in place and hands it to replace() in each transaction."
+)
 ASSUMPTIONS = [
     "interleavings are explored at lock/event operations and at line granularity of the "
     "anchored functions under a cooperative controller; preemption inside C-level calls "
